@@ -87,14 +87,109 @@ func Main(prop, tier string, only int) int {
 	if b, err := os.ReadFile(os.Getenv("VERIF_BUILD") + inv); err == nil {
 		_ = json.Unmarshal(b, &rep.Inventory)
 	}
-	dl := 100 * time.Second
+	jobs, bad := jobsFor(prop, tier)
+	if bad != "" {
+		fmt.Println(bad)
+		return 2
+	}
+	dl := tierDeadline(tier)
+	// the tier's budget is shared: with more scenarios than parallel slots each gets a proportionally shorter deadline
+	{
+		par := runtime.NumCPU() / 2
+		if par < 1 {
+			par = 1
+		}
+		if len(jobs) > par {
+			per := time.Duration(int64(dl) * int64(par) / int64(len(jobs)))
+			if per < 30*time.Second {
+				per = 30 * time.Second
+			}
+			for i := range jobs {
+				jobs[i].cfg.Deadline = per
+			}
+		}
+	}
+	if only >= 0 {
+		// sub-worker: one scenario
+		if only >= len(jobs) {
+			fmt.Println("INFRA no such scenario")
+			return 2
+		}
+		rep.Scenarios = append(rep.Scenarios, explore(jobs[only].name, jobs[only].cfg))
+	} else {
+		// one process per scenario (each owns its address block and its scheduler), at most par at a time
+		par := runtime.NumCPU() / 2
+		if par < 1 {
+			par = 1
+		}
+		res := make([]*Report, len(jobs))
+		sem := make(chan struct{}, par)
+		var wg sync.WaitGroup
+		var mu sync.Mutex
+		bad := ""
+		for i := range jobs {
+			wg.Add(1)
+			go func(i int) {
+				defer wg.Done()
+				sem <- struct{}{}
+				defer func() { <-sem }()
+				cmd := exec.Command("/proc/self/exe", "e3", prop, tier, fmt.Sprint(i))
+				cmd.Env = os.Environ()
+				cmd.Stderr = os.Stderr
+				out, err := cmd.Output()
+				var r *Report
+				for _, l := range strings.Split(string(out), "\n") {
+					if strings.HasPrefix(l, "E3RESULT ") {
+						r = &Report{}
+						if json.Unmarshal([]byte(l[9:]), r) != nil {
+							r = nil
+						}
+					} else if strings.HasPrefix(l, "INFRA") {
+						mu.Lock()
+						bad = l
+						mu.Unlock()
+					}
+				}
+				if r == nil || err != nil {
+					mu.Lock()
+					if bad == "" {
+						bad = fmt.Sprintf("INFRA scenario %d (%s): sub-worker failed: %v", i, jobs[i].name, err)
+					}
+					mu.Unlock()
+					return
+				}
+				res[i] = r
+			}(i)
+		}
+		wg.Wait()
+		if bad != "" {
+			fmt.Println(bad)
+			return 2
+		}
+		for _, r := range res {
+			rep.Scenarios = append(rep.Scenarios, r.Scenarios...)
+		}
+	}
+	b, _ := json.Marshal(rep)
+	fmt.Printf("E3RESULT %s\n", b)
+	return 0
+}
+
+type job struct {
+	name string
+	cfg  vsched.Config
+}
+
+func tierDeadline(tier string) time.Duration {
 	if tier == "thorough" {
-		dl = 20 * time.Minute
+		return 20 * time.Minute
 	}
-	type job struct {
-		name string
-		cfg  vsched.Config
-	}
+	return 100 * time.Second
+}
+
+// jobsFor lists the scenarios of a property and tier.
+func jobsFor(prop, tier string) ([]job, string) {
+	dl := tierDeadline(tier)
 	var jobs []job
 	switch prop {
 	case "C18":
@@ -177,87 +272,90 @@ func Main(prop, tier string, only int) int {
 				Body: c15Body(sc.P), Check: c15Check}})
 		}
 	default:
-		fmt.Printf("INFRA no E3 scenarios for %s\n", prop)
+		return nil, fmt.Sprintf("INFRA no E3 scenarios for %s", prop)
+	}
+	return jobs, ""
+}
+
+// Replay re-executes ONE stored schedule of a scenario (no exploration): the trace is printed, the execution is
+// judged as during the check, and the exit status tells whether the stored finding showed again.
+func Replay(path string) int {
+	b, err := os.ReadFile(path)
+	if err != nil {
+		fmt.Println("INFRA", err)
 		return 2
 	}
-	// the tier's budget is shared: with more scenarios than parallel slots each gets a proportionally shorter deadline
-	{
-		par := runtime.NumCPU() / 2
-		if par < 1 {
-			par = 1
-		}
-		if len(jobs) > par {
-			per := time.Duration(int64(dl) * int64(par) / int64(len(jobs)))
-			if per < 30*time.Second {
-				per = 30 * time.Second
-			}
-			for i := range jobs {
-				jobs[i].cfg.Deadline = per
+	var v struct {
+		Property  string `json:"property"`
+		Signature string `json:"signature"`
+		Scenario  string `json:"scenario"`
+		Replay    struct {
+			Scenario string `json:"scenario"`
+			Schedule []int  `json:"schedule"`
+		} `json:"replay"`
+	}
+	if err := json.Unmarshal(b, &v); err != nil {
+		fmt.Println("INFRA bad replay file:", err)
+		return 2
+	}
+	name := v.Replay.Scenario
+	if name == "" {
+		name = v.Scenario
+	}
+	props := []string{v.Property}
+	if v.Property == "C17" {
+		props = []string{"C17", "C17R"}
+	}
+	for _, prop := range props {
+		for _, tier := range []string{"quick", "thorough"} {
+			jobs, _ := jobsFor(prop, tier)
+			for _, j := range jobs {
+				if j.name != name {
+					continue
+				}
+				vsched.RaceMode, vsched.MapOrders, vsched.UseStateKeys = j.cfg.Races, j.cfg.MapOrders, false
+				x := &vsched.Exec{V: map[string]interface{}{}}
+				r := vsched.Run(v.Replay.Schedule, j.cfg.FireBudget, j.cfg.TickBudget, 20000, func() { j.cfg.Body(x) })
+				var fs []vsched.Finding
+				if j.cfg.Check != nil {
+					fs = j.cfg.Check(x, r)
+				}
+				for _, f := range x.Cleanup {
+					f()
+				}
+				for i, t := range r.Trace {
+					fmt.Printf("  %3d. %s\n", i+1, t)
+				}
+				var sigs []string
+				for _, p := range r.Panics {
+					sigs = append(sigs, "panic: "+strings.SplitN(p, "\n", 2)[0])
+				}
+				if r.Deadlock != "" {
+					sigs = append(sigs, "deadlock: "+r.Deadlock+" cycle: "+r.Cycle)
+				}
+				for _, e := range r.Races {
+					sigs = append(sigs, "race: "+strings.SplitN(e, "\n", 2)[0])
+				}
+				for _, f := range fs {
+					sigs = append(sigs, f.Sig+": "+f.What)
+				}
+				if r.Diverged != "" {
+					fmt.Println("INFRA the schedule did not replay:", r.Diverged)
+					return 2
+				}
+				fmt.Printf("scenario %s, schedule of %d choices replayed; observed:\n", name, len(v.Replay.Schedule))
+				for _, s := range sigs {
+					fmt.Println("   ", s)
+				}
+				if len(sigs) == 0 {
+					fmt.Println("    nothing: the stored finding did NOT show again")
+					return 0
+				}
+				fmt.Printf("stored signature: %s\n", v.Signature)
+				return 1
 			}
 		}
 	}
-	if only >= 0 {
-		// sub-worker: one scenario
-		if only >= len(jobs) {
-			fmt.Println("INFRA no such scenario")
-			return 2
-		}
-		rep.Scenarios = append(rep.Scenarios, explore(jobs[only].name, jobs[only].cfg))
-	} else {
-		// one process per scenario (each owns its address block and its scheduler), at most par at a time
-		par := runtime.NumCPU() / 2
-		if par < 1 {
-			par = 1
-		}
-		res := make([]*Report, len(jobs))
-		sem := make(chan struct{}, par)
-		var wg sync.WaitGroup
-		var mu sync.Mutex
-		bad := ""
-		for i := range jobs {
-			wg.Add(1)
-			go func(i int) {
-				defer wg.Done()
-				sem <- struct{}{}
-				defer func() { <-sem }()
-				cmd := exec.Command("/proc/self/exe", "e3", prop, tier, fmt.Sprint(i))
-				cmd.Env = os.Environ()
-				cmd.Stderr = os.Stderr
-				out, err := cmd.Output()
-				var r *Report
-				for _, l := range strings.Split(string(out), "\n") {
-					if strings.HasPrefix(l, "E3RESULT ") {
-						r = &Report{}
-						if json.Unmarshal([]byte(l[9:]), r) != nil {
-							r = nil
-						}
-					} else if strings.HasPrefix(l, "INFRA") {
-						mu.Lock()
-						bad = l
-						mu.Unlock()
-					}
-				}
-				if r == nil || err != nil {
-					mu.Lock()
-					if bad == "" {
-						bad = fmt.Sprintf("INFRA scenario %d (%s): sub-worker failed: %v", i, jobs[i].name, err)
-					}
-					mu.Unlock()
-					return
-				}
-				res[i] = r
-			}(i)
-		}
-		wg.Wait()
-		if bad != "" {
-			fmt.Println(bad)
-			return 2
-		}
-		for _, r := range res {
-			rep.Scenarios = append(rep.Scenarios, r.Scenarios...)
-		}
-	}
-	b, _ := json.Marshal(rep)
-	fmt.Printf("E3RESULT %s\n", b)
-	return 0
+	fmt.Printf("INFRA scenario %q of %s is not among the scenarios of the current build\n", name, v.Property)
+	return 2
 }
